@@ -1332,7 +1332,7 @@ namespace
 {
 void on_fatal_signal(int sig)
 {
-    const char* name = sig == SIGSEGV ? "SIGSEGV" : sig == SIGBUS ? "SIGBUS" : sig == SIGABRT ? "SIGABRT" : sig == SIGFPE ? "SIGFPE" : sig == SIGVTALRM ? "HANG" : "SIGNAL";
+    const char* name = sig == SIGSEGV ? "SIGSEGV" : sig == SIGBUS ? "SIGBUS" : sig == SIGABRT ? "SIGABRT" : sig == SIGFPE ? "SIGFPE" : sig == SIGPROF ? "HANG" : "SIGNAL";
     signal(sig, SIG_DFL);
     if(!g_in_run)
     {
@@ -1340,7 +1340,7 @@ void on_fatal_signal(int sig)
         return;
     }
     g.active = false;
-    sim::crash_report(g_prop + ":CRASH:" + name + (sig == SIGVTALRM ? resource_suffix() + nesting_suffix(150) : sig == SIGSEGV ? nesting_suffix(1000) : ""), sig == SIGVTALRM ? "sbeppc exceeded its CPU budget" : std::string("sbeppc died with ") + name + (sig == SIGSEGV ? " (stack overflow if recursion is unbounded)" : ""));
+    sim::crash_report(g_prop + ":CRASH:" + name + (sig == SIGPROF ? resource_suffix() + nesting_suffix(150) : sig == SIGSEGV ? nesting_suffix(1000) : ""), sig == SIGPROF ? "sbeppc exceeded its CPU budget" : std::string("sbeppc died with ") + name + (sig == SIGSEGV ? " (stack overflow if recursion is unbounded)" : ""));
 }
 
 void install_handlers()
@@ -1354,7 +1354,7 @@ void install_handlers()
     sa.sa_handler = on_fatal_signal;
     sa.sa_flags = SA_ONSTACK | SA_NODEFER;
     sigemptyset(&sa.sa_mask);
-    for(int s : {SIGSEGV, SIGBUS, SIGABRT, SIGFPE, SIGVTALRM}) sigaction(s, &sa, nullptr);
+    for(int s : {SIGSEGV, SIGBUS, SIGABRT, SIGFPE, SIGPROF}) sigaction(s, &sa, nullptr);
 }
 
 struct RunOutcome
@@ -1375,7 +1375,7 @@ void set_budget_ms(long ms)
     itimerval it{};
     it.it_value.tv_sec = ms / 1000;
     it.it_value.tv_usec = (ms % 1000) * 1000;
-    setitimer(ITIMER_VIRTUAL, &it, nullptr);
+    setitimer(ITIMER_PROF, &it, nullptr);
 }
 
 const char kFreedPattern[] = "\xDD\xDD\xDD\xDD\xDD\xDD\xDD\xDD";
